@@ -669,6 +669,8 @@ func aliasReflective(w *World) {
 	type meth struct {
 		m        reflect.Method
 		readOnly bool
+		recv     reflect.Value // the model, or the model's gRPC server
+		server   bool
 	}
 	var ms []meth
 	for i := 0; i < ty.NumMethod(); i++ {
@@ -689,23 +691,46 @@ func aliasReflective(w *World) {
 		}
 		n := m.Name
 		ro := strings.HasPrefix(n, "Get") || strings.HasPrefix(n, "List") || strings.HasPrefix(n, "Describe") || strings.HasPrefix(n, "Pull") || strings.HasPrefix(n, "Find") || strings.HasPrefix(n, "Has")
-		ms = append(ms, meth{m, ro})
+		ms = append(ms, meth{m: m, readOnly: ro, recv: obj})
+	}
+	// the model's server (the RPC handlers have logic of their own: relative updates, defaults, conversions): its unary
+	// methods, with synthesised requests
+	if me.NewServer != nil {
+		srv := reflect.ValueOf(me.NewServer(obj.Interface()))
+		sty := srv.Type()
+		for i := 0; i < sty.NumMethod(); i++ {
+			m := sty.Method(i)
+			ft := m.Type
+			if ft.NumIn() != 3 || ft.NumOut() != 2 || ft.In(1) != contextType || !ft.Out(1).Implements(errorType) ||
+				ft.In(2).Kind() != reflect.Ptr || !ft.In(2).Implements(protoMessageType) || !ft.Out(0).Implements(protoMessageType) {
+				continue
+			}
+			n := m.Name
+			ro := strings.HasPrefix(n, "Get") || strings.HasPrefix(n, "List") || strings.HasPrefix(n, "Describe")
+			ms = append(ms, meth{m: m, readOnly: ro, recv: srv, server: true})
+		}
 	}
 	if len(ms) == 0 {
 		return
 	}
-	sort.Slice(ms, func(i, j int) bool { return ms[i].m.Name < ms[j].m.Name })
+	sort.Slice(ms, func(i, j int) bool {
+		if ms[i].server != ms[j].server {
+			return !ms[i].server
+		}
+		return ms[i].m.Name < ms[j].m.Name
+	})
 	ctx, cancel := context.WithCancel(context.Background())
 	defer cancel()
 	readOptType := reflect.TypeOf((*resource.ReadOption)(nil)).Elem()
 	var lastArgs []reflect.Value
-	call := func(m reflect.Method, withOpts bool) (res []reflect.Value, panicked bool) {
+	call := func(x meth, withOpts bool) (res []reflect.Value, panicked bool) {
+		m := x.m
 		defer func() {
 			if r := recover(); r != nil {
 				panicked = true // a model method rejecting a synthesised argument by panicking is not an aliasing observation
 			}
 		}()
-		args := []reflect.Value{obj}
+		args := []reflect.Value{x.recv}
 		for a := 1; a < m.Type.NumIn(); a++ {
 			if m.Type.IsVariadic() && a == m.Type.NumIn()-1 {
 				// variadic read options: sometimes a read mask with top-level and nested paths of the result type
@@ -731,10 +756,10 @@ func aliasReflective(w *World) {
 	getters := func() string {
 		var sb strings.Builder
 		for _, x := range ms {
-			if !x.readOnly || strings.HasPrefix(x.m.Name, "Pull") || x.m.Type.NumIn() > 1 && !(x.m.Type.IsVariadic() && x.m.Type.NumIn() == 2) {
+			if x.server || !x.readOnly || strings.HasPrefix(x.m.Name, "Pull") || x.m.Type.NumIn() > 1 && !(x.m.Type.IsVariadic() && x.m.Type.NumIn() == 2) {
 				continue
 			}
-			res, pan := call(x.m, false)
+			res, pan := call(x, false)
 			if pan {
 				continue
 			}
@@ -755,6 +780,9 @@ func aliasReflective(w *World) {
 			task.Yield("op")
 			x := ms[t.Choose(len(ms))]
 			desc := me.Pkg + ".Model." + x.m.Name
+			if x.server {
+				desc = me.Pkg + ".ModelServer." + x.m.Name
+			}
 			var before string
 			isPull := strings.HasPrefix(x.m.Name, "Pull")
 			if isPull && nsub >= 2 {
@@ -763,7 +791,7 @@ func aliasReflective(w *World) {
 			if x.readOnly {
 				before = getters()
 			}
-			res, pan := call(x.m, true)
+			res, pan := call(x, true)
 			if pan {
 				task.Note("%s panicked on a synthesised argument (ignored)", desc)
 				continue
